@@ -1343,6 +1343,20 @@ func checkBounds(c *Ctx, rule string, fns []*ssa.Function, table map[string]stri
 				}
 				what = render(x)
 				base := x.X
+				if pt, isPtr := x.X.Type().Underlying().(*types.Pointer); isPtr {
+					// make([]T, k) with a constant k: the first k elements of a new [k]T
+					if at, isArr := pt.Elem().Underlying().(*types.Array); isArr && x.High != nil {
+						if hk, isK := constInt(x.High); isK && hk >= 0 && hk <= at.Len() {
+							lk, isLK := int64(0), x.Low == nil
+							if x.Low != nil {
+								lk, isLK = constInt(x.Low)
+							}
+							if isLK && lk >= 0 && lk <= hk {
+								continue
+							}
+						}
+					}
+				}
 				okHigh := x.High == nil || (b.le(x.High, base, x, visit{}) && b.nonNeg(x.High, x, visit{}))
 				var okLow bool
 				if x.High != nil {
